@@ -414,3 +414,8 @@ PROPS["C08"]["thorough"].append({"variant": "default", "cases": 200000, "worker_
 # C15 cancelling rounds (C15j): one call adds e-nodes / classes for some matches and collapses pre-united parents for others
 PROPS["C15"]["floors"]["any"]["runs_cancelling_round"] = 1000
 # C10: the group is observed in full between increments (add_set / add alternately); membership also through a user inserted between the assertions (C10j)
+# C13 with an analysis attached (C13j): the C14sym world records every equality it observes between handles (and between a handle
+# and its permuted invocations) and re-checks all of them after every later operation and rewrite iteration
+PROPS["C13"]["quick"].append({"variant": "default", "cases": 12000, "worker_prop": "C14sym", "timeout": 600})
+PROPS["C13"]["thorough"].append({"variant": "default", "cases": 300000, "worker_prop": "C14sym", "timeout": 3000})
+PROPS["C13"]["floors"]["any"]["recorded_equalities_rechecked"] = 100000
